@@ -2,7 +2,7 @@ import AlphaG.Model.Trg
 /-
 Line-protocol handler for `trg <hex>` (and `trgenc <hex>`: re-encode the decoded packet).
 -/
-namespace AlphaG.Driver.Trg
+namespace AlphaG.Driver.C06
 open AlphaG AlphaG.Trg
 
 def errName : Err → String
@@ -30,4 +30,4 @@ def handle (cmd : String) (args : List String) : Option String :=
       | .panic s => some s!"panic {s}"
   | _, _ => none
 
-end AlphaG.Driver.Trg
+end AlphaG.Driver.C06
